@@ -64,11 +64,11 @@ func runNack(c *c13Case, cl *caller, fails *[]cq.ImplFailure, noCopy bool) runOu
 	rtcpBuf := make([]byte, 1500)
 	calls := 0
 	fire := func(e ev) {
-		seq := uint16(0)
-		if e.K < len(c.Pkts) {
+		// a NACK for a packet that has not been written yet asks for a sequence number that is
+		// never used in this history (the resend goroutine may run arbitrarily late)
+		seq := c.Pkts[len(c.Pkts)-1].Seq + uint16(1000+e.K) //nolint:gosec
+		if e.K < calls {
 			seq = c.Pkts[e.K].Seq
-		} else {
-			seq = c.Pkts[len(c.Pkts)-1].Seq + uint16(10+e.K) //nolint:gosec
 		}
 		raw, err := (&rtcp.TransportLayerNack{SenderSSRC: 1, MediaSSRC: mediaSSRC, Nacks: []rtcp.NackPair{{PacketID: seq}}}).Marshal()
 		if err != nil {
